@@ -269,7 +269,7 @@ def matrix(ctx, backend):
             continue
         text = (sc + ":" if sc else "") + ("//" + au if au is not None else "") + pa + ("?" + qu if qu is not None else "") + ("#" + fr if fr is not None else "")
         for mode in ("enc", "auto"):
-            for order in (0, 2):
+            for order in (0, 1, 2):
                 ctx.run("parse", backend=backend, mode=mode, s=text, order=order)
 
 
